@@ -155,4 +155,165 @@ theorem main_loop (e : Env F) : ∀ (n : Nat) (mst : AStar.St F) (s : State F) (
           rw [hr, ← hx.2.2.2.2]
           exact ih
 
+/-- well-formed inputs of `_a_star_search`, described by the environment `e` of the hand model -/
+structure SrchIn (e : Env F) (s : State F) : Prop where
+  ops : e.ops = flOps
+  s_data : s.shp "data" = [e.h, e.w]
+  s_bars : (s.shp "barriers").length = 1
+  s_nys : s.shp "neighbor_ys" = [(s.ia "neighbor_ys").length]
+  s_nxs : s.shp "neighbor_xs" = [(s.ia "neighbor_xs").length]
+  s_path : s.shp "path_img" = [e.h, e.w]
+  nbrs : e.nbrs = (s.ia "neighbor_ys").zip (s.ia "neighbor_xs")
+  cross : ∀ c, inside e.h e.w c = true →
+    e.cross c = !notCross ((s.fa "data").getD (cidx e.w c) Fl.nan) (s.fa "barriers")
+  gy : s.ienv "goal_py" = e.goal.1
+  gx : s.ienv "goal_px" = e.goal.2
+  sy : s.ienv "start_py" = e.start.1
+  sx : s.ienv "start_px" = e.start.2
+  start_in : inside e.h e.w e.start = true
+
+theorem getD_replicate_lt {α} (n k : Nat) (x d : α) (h : k < n) : (List.replicate n x).getD k d = x := by
+  simp [List.getD_eq_getElem?_getD, h]
+
+theorem replicate_01 (n : Nat) : ∀ x ∈ List.replicate n (0 : Int), x = 0 ∨ x = 1 := by
+  intro x hx; exact Or.inl (List.eq_of_mem_replicate hx)
+
+/-- the arrays after the statements before the loop represent the model's `init` -/
+theorem SrchAbs.init {e : Env F} {r : State F} (hops : e.ops = flOps) (hstart : inside e.h e.w e.start = true)
+    (h1 : r.ia "is_open" = if e.cross e.start = true then (List.replicate (e.h * e.w) 0).set (cidx e.w e.start) 1
+      else List.replicate (e.h * e.w) 0)
+    (h2 : r.ia "is_closed" = List.replicate (e.h * e.w) 0)
+    (h3 : r.ia "parent_ys" = (List.replicate (e.h * e.w) (-1)).set (cidx e.w e.start) e.start.1)
+    (h4 : r.ia "parent_xs" = (List.replicate (e.h * e.w) (-1)).set (cidx e.w e.start) e.start.2)
+    (h5 : r.fa "d_from_start" = if e.cross e.start = true then
+      (List.replicate (e.h * e.w) (Fl.lit 0 1)).set (cidx e.w e.start) (Fl.lit 0 1)
+      else List.replicate (e.h * e.w) (Fl.lit 0 1))
+    (h6 : r.fa "cost" = if e.cross e.start = true then
+      (List.replicate (e.h * e.w) (Fl.lit 0 1)).set (cidx e.w e.start)
+        (Fl.add (Fl.lit 0 1) (flDist e.start e.goal))
+      else List.replicate (e.h * e.w) (Fl.lit 0 1)) :
+    SrchAbs e r (AStar.init e) := by
+  have hs' := (inside_iff e.h e.w e.start).1 hstart
+  have hlr : ∀ {α} (x : α), (List.replicate (e.h * e.w) x).length = e.h * e.w := fun x => List.length_replicate
+  have hpar : ∀ c, inside e.h e.w c = true →
+      (upd (fun _ => none) e.start (some e.start) : Cell → Option Cell) c =
+        parentOf (r.ia "parent_ys") (r.ia "parent_xs") e.w c := by
+    intro c hc
+    rw [h3, h4]
+    unfold parentOf
+    rw [getD_set_cell e.h e.w _ (hlr _) e.start c hstart hc, getD_set_cell e.h e.w _ (hlr _) e.start c hstart hc,
+      getD_replicate_lt _ _ _ _ (cidx_lt _ _ _ hc)]
+    simp only [upd]
+    split
+    · have a1 : e.start.1 ≠ -1 := by omega
+      have a2 : e.start.2 ≠ -1 := by omega
+      simp [a1, a2]
+    · simp
+  have hps : parentOf (r.ia "parent_ys") (r.ia "parent_xs") e.w e.start ≠ none := by
+    rw [← hpar _ hstart]; simp [upd]
+  unfold AStar.init
+  by_cases hcr : e.cross e.start = true
+  · simp only [hcr, if_true] at h1 h5 h6 ⊢
+    refine ⟨by rw [h1]; simp, by rw [h2]; simp, by rw [h5]; simp, by rw [h6]; simp, by rw [h3]; simp,
+      by rw [h4]; simp, by rw [h1]; exact mem_set_01 _ _ _ (Or.inr rfl) (replicate_01 _), ?_, ?_, ?_, ?_, hpar, hps⟩
+    · intro c hc
+      rw [h1, getD_set_cell e.h e.w _ (hlr _) e.start c hstart hc, getD_replicate_lt _ _ _ _ (cidx_lt _ _ _ hc)]
+      simp only [upd]; split <;> simp
+    · intro c hc
+      rw [h2, getD_replicate_lt _ _ _ _ (cidx_lt _ _ _ hc)]; simp
+    · intro c hc
+      rw [h5, getD_set_cell e.h e.w _ (hlr _) e.start c hstart hc, getD_replicate_lt _ _ _ _ (cidx_lt _ _ _ hc),
+        hops]
+      try simp [flOps]
+    · intro c hc
+      rw [h6, getD_set_cell e.h e.w _ (hlr _) e.start c hstart hc, getD_replicate_lt _ _ _ _ (cidx_lt _ _ _ hc),
+        hops]
+      simp only [upd, flOps]
+  · simp only [hcr, if_false, Bool.false_eq_true] at h1 h5 h6 ⊢
+    refine ⟨by rw [h1]; simp, by rw [h2]; simp, by rw [h5]; simp, by rw [h6]; simp, by rw [h3]; simp,
+      by rw [h4]; simp, by rw [h1]; exact replicate_01 _, ?_, ?_, ?_, ?_, hpar, hps⟩
+    · intro c hc
+      rw [h1, getD_replicate_lt _ _ _ _ (cidx_lt _ _ _ hc)]; simp
+    · intro c hc
+      rw [h2, getD_replicate_lt _ _ _ _ (cidx_lt _ _ _ hc)]; simp
+    · intro c hc
+      rw [h5, getD_replicate_lt _ _ _ _ (cidx_lt _ _ _ hc), hops]; rfl
+    · intro c hc
+      rw [h6, getD_replicate_lt _ _ _ _ (cidx_lt _ _ _ hc), hops]; rfl
+
+/-- the state after the allocations at the top of `_a_star_search` -/
+def initA (e : Env F) (s : State F) : State F :=
+  { s with
+    ienv := setS (setS s.ienv "height" (e.h : Int)) "width" (e.w : Int),
+    ia :=
+      setS (setS (setS (setS (setS (setS s.ia "parent_ys" (List.replicate (e.h * e.w) (-1))) "parent_xs"
+        (List.replicate (e.h * e.w) (-1)))
+        "parent_ys" ((List.replicate (e.h * e.w) (-1)).set (cidx e.w e.start) e.start.1))
+        "parent_xs" ((List.replicate (e.h * e.w) (-1)).set (cidx e.w e.start) e.start.2))
+        "is_open" (List.replicate (e.h * e.w) 0)) "is_closed" (List.replicate (e.h * e.w) 0),
+    fa := setS (setS s.fa "d_from_start" (List.replicate (e.h * e.w) (Fl.lit 0 1))) "cost"
+        (List.replicate (e.h * e.w) (Fl.lit 0 1)),
+    shp := setS (setS (setS (setS (setS (setS s.shp "parent_ys" [e.h, e.w]) "parent_xs" [e.h, e.w])
+        "d_from_start" [e.h, e.w]) "cost" [e.h, e.w]) "is_open" [e.h, e.w]) "is_closed" [e.h, e.w],
+    ctl := .run }
+
+theorem SrchConst.of_in {e : Env F} {s r : State F} (hi : SrchIn e s) (hshp : r.shp = (initA e s).shp)
+    (hd : r.fa "data" = s.fa "data") (hb : r.fa "barriers" = s.fa "barriers")
+    (hn1 : r.ia "neighbor_ys" = s.ia "neighbor_ys") (hn2 : r.ia "neighbor_xs" = s.ia "neighbor_xs")
+    (h1 : r.ienv "height" = (e.h : Int)) (h2 : r.ienv "width" = (e.w : Int))
+    (h3 : r.ienv "goal_py" = s.ienv "goal_py") (h4 : r.ienv "goal_px" = s.ienv "goal_px")
+    (h5 : r.ienv "start_py" = s.ienv "start_py") (h6 : r.ienv "start_px" = s.ienv "start_px") : SrchConst e r :=
+  ⟨hi.ops, by rw [hshp]; simp [initA, setS_apply, hi.s_data], by rw [hshp]; simp [initA, setS_apply, hi.s_bars],
+   by rw [hshp, hn1]; simp [initA, setS_apply, hi.s_nys], by rw [hshp, hn2]; simp [initA, setS_apply, hi.s_nxs],
+   by rw [hshp]; simp [initA, setS_apply], by rw [hshp]; simp [initA, setS_apply],
+   by rw [hshp]; simp [initA, setS_apply], by rw [hshp]; simp [initA, setS_apply],
+   by rw [hshp]; simp [initA, setS_apply], by rw [hshp]; simp [initA, setS_apply],
+   by rw [hshp]; simp [initA, setS_apply, hi.s_path], by rw [hn1, hn2]; exact hi.nbrs,
+   by rw [hd, hb]; exact hi.cross, h1, h2, by rw [h3]; exact hi.gy, by rw [h4]; exact hi.gx,
+   by rw [h5]; exact hi.sy, by rw [h6]; exact hi.sx, hi.start_in⟩
+
+/-- **the statements before the loop establish the model's `init`** -/
+theorem init_exec (e : Env F) (s : State F) (hs : s.ctl = .run) (hi : SrchIn e s) (fuel : Nat) :
+    ∃ s0 : State F, exec fuel searchSt s = exec fuel searchTail s0 ∧ LoopInv e s0 (AStar.init e) ∧
+      s0.fa "path_img" = s.fa "path_img" := by
+  have hsi := (inside_iff e.h e.w e.start).1 hi.start_in
+  have r1 : inRange e.start.1 e.h = true := inRange_inside hsi.1 hsi.2.1
+  have r2 : inRange e.start.2 e.w = true := inRange_inside hsi.2.2.1 hsi.2.2.2
+  have ho := off2_inside e.h e.w e.start hi.start_in
+  have hlt : cidx e.w e.start < e.h * e.w := cidx_lt _ _ _ hi.start_in
+  have hA : exec fuel searchSt s = exec fuel searchB (initA e s) := by
+    ilsimp [searchSt, initA, hs, hi.s_data, hi.sy, hi.sx, r1, r2, ho]
+  have hcr := hi.cross _ hi.start_in
+  generalize hdv : (s.fa "data").getD (cidx e.w e.start) Fl.nan = dv at hcr
+  let sB : State F := { initA e s with fenv := setS (initA e s).fenv "_is_not_crossable1$cell_value" dv }
+  obtain ⟨z, hz⟩ := nc_scope "_is_not_crossable1$cell_value" "_is_not_crossable1$i" "_is_not_crossable1$ret0"
+    (by decide) fuel sB rfl (by simp [sB, initA, setS_apply, hi.s_bars])
+  let sC : State F :=
+    { sB with
+      benv := setS sB.benv "_is_not_crossable1$ret0"
+        (notCross (sB.fenv "_is_not_crossable1$cell_value") (sB.fa "barriers")),
+      fenv := setS sB.fenv "_is_not_crossable1$i" z }
+  have hz' : exec fuel (.scope (ncSt "_is_not_crossable1$cell_value" "_is_not_crossable1$i"
+      "_is_not_crossable1$ret0")) sB = sC := hz
+  have hB : exec fuel searchB (initA e s) = exec fuel searchC sC := by
+    rw [searchB, exec_seq_to (s1 := sB) (by ilsimp [sB, initA, hi.s_data, hi.sy, hi.sx, r1, r2, ho, hdv]) rfl,
+      exec_seq_to hz' rfl]
+  rw [hA, hB]
+  by_cases hbar : notCross dv (s.fa "barriers") = true
+  · have hcf : e.cross e.start = false := by rw [hcr, hbar]; rfl
+    ilsimp [searchC, initOpen, sC, sB, initA, hbar]
+    refine ⟨_, rfl, ⟨rfl, SrchConst.of_in hi ?_ ?_ ?_ ?_ ?_ ?_ ?_ ?_ ?_ ?_ ?_,
+      SrchAbs.init hi.ops hi.start_in ?_ ?_ ?_ ?_ ?_ ?_, ?_⟩, ?_⟩
+    all_goals first
+      | (simp [initA, setS_apply, hcf, sumI]; done)
+      | skip
+  · have hct : e.cross e.start = true := by rw [hcr]; simp [hbar]
+    have hlt' : cidx e.w e.start < (List.replicate (e.h * e.w) (Fl.lit 0 1 : F)).length := by simpa using hlt
+    ilsimp [searchC, initOpen, sC, sB, initA, hbar, r1, r2, ho, hi.sy, hi.sx, hi.gy, hi.gx,
+      getD_set_same _ _ _ _ hlt', getD_replicate_lt _ _ _ _ hlt]
+    refine ⟨_, rfl, ⟨rfl, SrchConst.of_in hi ?_ ?_ ?_ ?_ ?_ ?_ ?_ ?_ ?_ ?_ ?_,
+      SrchAbs.init hi.ops hi.start_in ?_ ?_ ?_ ?_ ?_ ?_, ?_⟩, ?_⟩
+    all_goals first
+      | (simp [initA, setS_apply, hct, sumI, flDist, sqDist, getD_replicate_lt _ _ _ _ hlt]; done)
+
 end XrsVerif.IL
